@@ -182,6 +182,7 @@ def judge(ctx, lit, rng, c):
     src = 'p(%s).\nh(%s) :- true.\nb(Bv) :- Bv = %s.\nq(Qa, Qb) :- Qa = Qb.\n' % (text, text, text)
     # two literals with the same spelling but different structure in ONE clause (head and body)
     src += 'pp(%s, %s).\npb(Pa, Pb) :- Pa = %s, Pb = %s.\n' % (text, ttext, ttext, text)
+    src += 'item([%s, 1]).\nitem([%s, 2]).\nitem([third, more, extra]).\n' % (text, ttext)
     try:
         if rng.random() < 0.25:
             # source text in a FILE is source text too (bytes as written: CR, CR LF and the rest stay what they are)
@@ -240,6 +241,28 @@ def judge(ctx, lit, rng, c):
                 return {'kind': 'literal_denotes_other_term', 'detail': {'position': pred + ' (two similar literals in one clause)',
                                                                           'expected': canon(want, {}), 'got': got}, 'witness': dict(w, twin=ttext)}, None
             c['similar_literal_pairs'] = c.get('similar_literal_pairs', 0) + 1
+        # a term the CALLER built around its own variables (makelist / listpair / functor) and keeps: to_python of that
+        # same object follows the bindings of each answer and is back to unbound afterwards
+        if not has_partial_list(term) and not has_partial_list(pair[1]) and rng.random() < 0.4:
+            for mk in ('makelist', 'listpair', 'functor'):
+                N, M = yp.variable(), yp.variable()
+                T = yp.makelist([N, M]) if mk == 'makelist' else (yp.listpair(N, M) if mk == 'listpair' else yp.functor('.', [N, yp.listpair(M, yp.ATOM_NIL)]))
+                seen = []
+                for _ in yp.query('item', [T]):
+                    if mk == 'listpair' and not isinstance(E.to_python(M), list):
+                        continue
+                    tpt = E.to_python(T)
+                    exp_t = [E.to_python(N), E.to_python(M)] if mk != 'listpair' else [E.to_python(N)] + E.to_python(M)
+                    if tpt != exp_t or E.to_python(T) != exp_t:
+                        return {'kind': 'to_python_of_a_kept_term_does_not_follow_the_bindings',
+                                'detail': {'built_with': mk, 'answer': len(seen), 'to_python_of_term': repr(tpt)[:120], 'to_python_of_its_variables': repr(exp_t)[:120]},
+                                'witness': dict(w, twin=ttext)}, None
+                    seen.append(tpt)
+                after = E.to_python(T) if mk != 'listpair' else [E.to_python(N), E.to_python(M)]
+                if after != [None, None]:
+                    return {'kind': 'to_python_of_a_kept_term_does_not_follow_the_bindings',
+                            'detail': {'built_with': mk, 'after_the_query': repr(after)[:120]}, 'witness': dict(w, twin=ttext)}, None
+                c['kept_template_conversions'] = c.get('kept_template_conversions', 0) + len(seen)
         # API-built twins, built in this engine and in a second engine
         for eng, label in ((yp, 'same_engine'), (yp2, 'other_engine')):
             for pos in ('fact', 'head', 'body', 'query'):
